@@ -76,7 +76,8 @@ def configs(tier, seed=0):
               [2, 3, 2], [2, 2, 3], [3, 2, 2]]
     iters_set = [0, 1, 2, 10, 50]
     max_trusts = 3
-  bounds_set = [(None, None), (-0.5, None), (None, 0.5), (-1.0, 1.0), (-0.5, 0.75)]
+  bounds_set = [(None, None), (-0.5, None), (None, 0.5), (-1.0, 1.0), (-0.5, 0.75), (0.0, None),
+                (-1.0, 0.0)]  # incl. bounds that are exactly 0.0 (a falsy value is still a bound)
   out = []
   for sizes in shapes:
     d = len(sizes)
@@ -103,11 +104,13 @@ def configs(tier, seed=0):
             its = iters_set
             if quick and (n >= 8 or len(ts) >= 2):
               its = [0, 1] if (bi % 2 == 0) else [3]
+              if bi >= 5:
+                its = [1]
             if not quick and n == 8:
               its = [0, 1, 10] if (bi % 2 == 0) else [2, 50]
             if not quick and n >= 12:
               # 3^12 kernels per configuration: strict families only, two bound modes
-              if comp is not None or bi not in (0, 3) or len(ts) > 2:
+              if comp is not None or bi not in (0, 3, 5) or len(ts) > 2:
                 continue
               its = [0, 2]
             for it in its:
